@@ -120,6 +120,35 @@ class Rig:
                                   self.pr.dir, timeout=40)
         return rc, parse_trace(so), se
 
+    def run_sched_batch(self, jobs):
+        """jobs: [(schedule, programs)] -> [(rc, trace, err text)] by one batch process (a forked
+        child per schedule).  rc 'timeout' for a child killed by its alarm, 'skipped' after the
+        batch stopped at a hang / deadlock."""
+        import json
+        if not jobs:
+            return []
+        data = ''.join(f'{s} {p}\n' for s, p in jobs)
+        rc, so, se = farm.run_cmd([os.path.join(self.pr.dir, 'sched'), '--batch'], self.pr.dir,
+                                  timeout=60 + 2 * len(jobs), stdin=data)
+        out, trace, noise = [], [], []
+        for line in so.splitlines():
+            if line.startswith('{"k":"done"'):
+                r = json.loads(line)['rc']
+                r = 'timeout' if r == -14 else ('skipped' if r == 99 else r)
+                out.append((r, trace, '\n'.join(noise)[-1500:]))
+                trace, noise = [], []
+            elif line.startswith('{'):
+                try:
+                    trace.append(json.loads(line))
+                except ValueError:
+                    trace.append({'k': 'garbled'})
+            elif line.strip():
+                noise.append(line)
+        if len(out) != len(jobs):
+            raise HarnessError(f'scheduler batch returned {len(out)} results for {len(jobs)} jobs '
+                               f'(rc={rc}): {se[-400:]}')
+        return out
+
     def run_free(self, perturb, programs):
         rc, so, se = farm.run_cmd([os.path.join(self.pr.dir, 'free_tsan'), perturb, programs],
                                   self.pr.dir, timeout=30, env=farm.SAN_ENV['tsan'])
@@ -138,12 +167,12 @@ def parse_trace(out):
     return trace
 
 
-def judge_sched(rig, schedule, programs, ctx_counts):
+def judge_sched(rig, schedule, programs, ctx_counts, result=None):
     what = f'schedule {schedule} programs {programs}'
-    if ctx_counts.get('deadlock_seen'):
+    if ctx_counts.get('deadlock_seen') or (result is not None and result[0] == 'skipped'):
         # every deadlocking schedule costs ~12 s of waiting: once one is recorded, stop exploring
         raise Fail(f'{what}: skipped after a real deadlock was found in this run', 'deadlock-real')
-    rc, trace, err = rig.run_sched(schedule, programs)
+    rc, trace, err = result if result is not None else rig.run_sched(schedule, programs)
     if rc == 'timeout' or rc == 4:
         # 4: an actor blocked on something the scheduler does not own, gating was dropped and the run
         # then completed: the schedule is not decisive (no verdict)
@@ -171,11 +200,15 @@ def dfs(rig, programs, bound, ctx_counts, record, limit):
         while frontier and seen < limit:
             batch, frontier = frontier[:4000], frontier[4000:]
 
-            def job(pre):
-                sched = 's:' + ','.join(f'{i}={a}' for i, a in pre)
-                trace, decisions = judge_sched(rig, sched, programs, ctx_counts)
-                return pre, sched, trace, decisions
-            for pre, sched, trace, decisions in ex.map(job, batch):
+            def chunk_job(pres):
+                scheds = ['s:' + ','.join(f'{i}={a}' for i, a in pre) for pre in pres]
+                results = rig.run_sched_batch([(s, programs) for s in scheds])
+                return list(zip(pres, scheds, results))
+            size = max(1, min(400, (len(batch) + 15) // 16))
+            chunks = [batch[i:i + size] for i in range(0, len(batch), size)]
+            flat = [x for part in ex.map(chunk_job, chunks) for x in part]
+            for pre, sched, result in flat:
+                trace, decisions = judge_sched(rig, sched, programs, ctx_counts, result)
                 seen += 1
                 record(sched, programs, trace)
                 if decisions is None or len(pre) >= bound:
@@ -197,6 +230,9 @@ program = st.tuples(st.lists(st.tuples(st.integers(1, 3), st.integers(0, 2)), mi
     lambda t: ';'.join(f'{c}.{u}' for c, u in t[0]) + f';{t[1]}')
 dense = st.lists(st.integers(0, 3), min_size=10, max_size=160).map(
     lambda l: 'd:' + ','.join(map(str, l)))
+# pseudo-random walks: the seed is the generated input (r:<seed>,<stickiness in percent>)
+walk = st.tuples(st.integers(0, 2 ** 31 - 1), st.sampled_from([0, 30, 50, 70, 85, 95])).map(
+    lambda t: f'r:{t[0]},{t[1]}')
 sparse = st.lists(st.tuples(st.integers(0, 120), st.integers(0, 4)), max_size=8).map(
     lambda l: 's:' + ','.join(f'{i}={a}' for i, a in sorted(dict(l).items())))
 perturb = st.lists(st.sampled_from([0, 0, 1, 1, 2, 5, 20, 40]), min_size=4, max_size=40).map(
@@ -239,6 +275,41 @@ mutex_ops = st.lists(st.lists(st.sampled_from('IIYRS'), min_size=1, max_size=30)
                      min_size=1, max_size=4)
 
 
+def explicit_schedule(rig, schedule, programs, fail):
+    """A failing pseudo-random walk as an explicit sparse schedule (the deviations from the default
+    run it took), greedily reduced while the same failure persists.  Falls back to the walk itself
+    (which is deterministic as well) when the driver could not report its decisions."""
+    if not schedule.startswith('r:'):
+        return schedule
+    _rc, trace, _err = rig.run_sched(schedule, programs)
+    dec = [t for t in trace if t.get('k') == 'decisions']
+    if not dec:
+        return schedule
+    dev = []
+    for d in dec[0]['d'].split():
+        idx, _runnable, pick, default = d.split(':')
+        if pick != default:
+            dev.append((int(idx), int(pick)))
+
+    def fails(devs):
+        s = 's:' + ','.join(f'{i}={a}' for i, a in devs)
+        try:
+            judge_sched(rig, s, programs, {'inconclusive': 0})
+        except Fail as f2:
+            return f2.sig == fail.sig
+        return False
+    if not fails(dev):
+        return schedule
+    i = 0
+    while i < len(dev) and len(dev) > 1:
+        cand = dev[:i] + dev[i + 1:]
+        if fails(cand):
+            dev = cand
+        else:
+            i += 1
+    return 's:' + ','.join(f'{i}={a}' for i, a in dev)
+
+
 def mutex_expected(threads):
     return sum({'I': 1, 'Y': 1, 'R': 2, 'S': 2}[c] for ops in threads for c in ops)
 
@@ -249,10 +320,13 @@ def check_mutex_case(case, exe_dir=None):
     try:
         if own:
             build_mutex_test(d)
-        rc, so, se = farm.run_cmd([os.path.join(d, 'mutex_tsan')] + case['threads'], d, timeout=60,
+        rc, so, se = farm.run_cmd([os.path.join(d, 'mutex_tsan')] + case['threads'], d, timeout=20,
                                   env=farm.SAN_ENV['tsan'])
+        if rc == 'timeout':  # milliseconds of work: once more, with a longer limit, before the verdict
+            rc, so, se = farm.run_cmd([os.path.join(d, 'mutex_tsan')] + case['threads'], d, timeout=40,
+                                      env=farm.SAN_ENV['tsan'])
         if rc == 'timeout':
-            raise Fail(f'MutexWrapped: threads {case["threads"]} did not finish (lock not released '
+            raise Fail(f'MutexWrapped: threads {case["threads"]} did not finish within 20 s and 40 s (lock not released '
                        f'on reset() / scope exit?)', 'mutex-hang')
         if 'ThreadSanitizer' in se or rc == 66:
             raise Fail(f'MutexWrapped: ThreadSanitizer report: {se[:1200]}', 'mutex-tsan')
@@ -382,7 +456,7 @@ def run(ctx):
 
         # ---- E2 (i): bounded-exhaustive
         ctx.clauses_run.append('dfs')
-        bound = 2 if quick else 3
+        bound = 3
         complete = True
         for rig in rigs:
             mh = case_hash([rig.case['sm']['model'], rig.case['spec']])
@@ -390,7 +464,7 @@ def run(ctx):
                 def record(sched, progs, trace, mh=mh):
                     ctx.record([mh, progs, sched], overlapped(trace), ['dfs'])
                 try:
-                    _n, done = dfs(rig, programs, bound, counts, record, 6000 if quick else 400000)
+                    _n, done = dfs(rig, programs, bound, counts, record, 60000 if quick else 400000)
                     complete = complete and done
                 except Fail as f:
                     violation('dfs', f, dict(base_case(rig), engine='sched', programs=programs,
@@ -402,23 +476,30 @@ def run(ctx):
         # ---- E2 (ii): sampled programs and schedules
         ctx.clauses_run.append('sampled_schedules')
         n = 1000 if quick else 100000
-        samples = draw_cases(st.tuples(program, st.one_of(dense, dense, sparse)), n, ctx.seed + 1,
+        samples = draw_cases(st.tuples(program, st.one_of(dense, sparse, walk, walk)), n, ctx.seed + 1,
                              oversample=1)
         for ri, rig in enumerate(rigs):
             mh = case_hash([rig.case['sm']['model'], rig.case['spec']])
             mine = samples[ri::len(rigs)]
 
-            def job(ps, rig=rig):
-                try:
-                    trace, _d = judge_sched(rig, ps[1], ps[0], counts)
-                    return ps, trace, None
-                except Fail as f:
-                    return ps, None, f
+            def chunk_job(part, rig=rig):
+                out = []
+                results = rig.run_sched_batch([(ps[1], ps[0]) for ps in part])
+                for ps, result in zip(part, results):
+                    try:
+                        trace, _d = judge_sched(rig, ps[1], ps[0], counts, result)
+                        out.append((ps, trace, None))
+                    except Fail as f:
+                        out.append((ps, None, f))
+                return out
+            size = max(1, min(200, (len(mine) + 15) // 16))
             with ThreadPoolExecutor(max_workers=16) as ex:
-                for ps, trace, f in ex.map(job, mine):
+                parts = ex.map(chunk_job, [mine[i:i + size] for i in range(0, len(mine), size)])
+                for ps, trace, f in [x for part in parts for x in part]:
                     if f is not None:
                         violation('sampled_schedules', f, dict(base_case(rig), engine='sched',
-                                                               programs=ps[0], schedule=ps[1]))
+                                                               programs=ps[0],
+                                                               schedule=explicit_schedule(rig, ps[1], ps[0], f)))
                         continue
                     ctx.record([mh, ps[0], ps[1]], overlapped(trace), ['sampled',
                                'clients=%d' % (ps[0].count(';'))])
@@ -452,11 +533,19 @@ def run(ctx):
             cases = [{'engine': 'mutex', 'threads': t} for t in
                      draw_cases(mutex_ops, 150 if quick else 4000, ctx.seed + 3, oversample=1)]
 
+            hung = []
+
             def job3(case):
                 try:
+                    if hung:
+                        # every hanging case costs its 60 s time-out: one report is enough
+                        raise Fail('MutexWrapped: skipped after a hang was found in this run',
+                                   'mutex-hang')
                     check_mutex_case(case, md)
                     return case, None
                 except Fail as f:
+                    if f.sig == 'mutex-hang':
+                        hung.append(1)
                     return case, f
             with ThreadPoolExecutor(max_workers=8) as ex:
                 for case, f in ex.map(job3, cases):
